@@ -17,6 +17,7 @@ import (
 	"sort"
 	"strings"
 	"sync"
+	"sync/atomic"
 	"text/template"
 	"time"
 
@@ -134,8 +135,35 @@ type Package struct {
 	BuildErr string // go build errors of the generated file (+ runner)
 }
 
-// Generate runs the current front end and code generator in process.
+// GenerateTimeout bounds one in-process generation. peg's analyses can loop forever on
+// input they were not written for (found: a range written backwards under -switch); the
+// goroutine is abandoned and the case reported as not terminating.
+var GenerateTimeout = 25 * time.Second
+
+// Hung counts generations that did not terminate (the check then ends inconclusive).
+var Hung int64
+
+// Generate runs the current front end and code generator in process, under a watchdog.
 func Generate(text string, v Variant, file string) (src []byte, genErr string) {
+	type res struct {
+		src []byte
+		err string
+	}
+	done := make(chan res, 1)
+	go func() {
+		s, e := generate(text, v, file)
+		done <- res{s, e}
+	}()
+	select {
+	case r := <-done:
+		return r.src, r.err
+	case <-time.After(GenerateTimeout):
+		atomic.AddInt64(&Hung, 1)
+		return nil, fmt.Sprintf("generator did not terminate within %v", GenerateTimeout)
+	}
+}
+
+func generate(text string, v Variant, file string) (src []byte, genErr string) {
 	defer func() {
 		if r := recover(); r != nil {
 			genErr = fmt.Sprintf("generator panic: %v", r)
